@@ -440,6 +440,7 @@ async fn run_case(lines: &[String], out: &mut Out) -> bool {
 	out.line(lines[0].clone(), "case".into(), Ok(()), false);
 	out.count(&format!("case.path={}", h.assembly.name()));
 	out.count(if drop_only { "case.kind=drop_only" } else { "case.kind=stop" });
+	out.count(&format!("case.cap={}", h.cap));
 	let stop_at = log.iter().position(|l| l.starts_with("A stop ") || l == "A drop|ok");
 	let mut started_before_stop = 0;
 	// distinctness is counted per observed HISTORY (assembly + the whole trace)
@@ -484,6 +485,7 @@ async fn run_case(lines: &[String], out: &mut Out) -> bool {
 	let resolved = log.iter().any(|l| l == "resolved");
 	// states the stop landed on (distribution)
 	if let Some(s) = stop_at {
+		let mut executing: BTreeMap<u64, u32> = BTreeMap::new();
 		for (k, _) in run.call_conn.iter() {
 			let before = |e: String| log.iter().position(|l| *l == e).map(|p| p < s).unwrap_or(false);
 			let sent = log.iter().position(|l| l.starts_with(&format!("A send ")) && l.split(' ').nth(3).map(|t| t.split('|').next() == Some(&k.to_string())).unwrap_or(false)).map(|p| p < s).unwrap_or(false);
@@ -499,6 +501,22 @@ async fn run_case(lines: &[String], out: &mut Out) -> bool {
 				"answered"
 			};
 			out.count(&format!("stop_landed_on.{st}"));
+			if st == "executing" {
+				if let Some(c) = run.call_conn.get(k) {
+					if run.conns.get(c).map(|x| x.tr == Tr::Ws && !x.gone).unwrap_or(false) {
+						*executing.entry(*c).or_insert(0) += 1;
+					}
+				}
+			}
+		}
+		// the drain has to push more answers through the writer queue than it holds
+		if let Some(m) = executing.values().max() {
+			if *m > h.cap {
+				out.count("stop.ws_calls_executing_exceed_queue");
+				if *m >= h.cap + 2 {
+					out.count("stop.ws_calls_executing_exceed_queue_by_2_or_more");
+				}
+			}
 		}
 	}
 	let ok = orc.is_ok() && run.failed.is_none();
@@ -529,11 +547,71 @@ struct Base {
 	acts: Vec<String>,
 	conns: Vec<(u64, Tr)>,
 	calls: Vec<u64>,
+	/// `message_buffer_capacity` the history is built for (None = any)
+	cap: Option<u32>,
+	/// a position at which the stop signal is always tried (quick tier samples the others)
+	hot: Option<usize>,
+}
+
+/// More calls than the writer queue holds are executing on ONE WebSocket connection and finish at
+/// the same instant (back-to-back `rel`s, or all of them by `relall`) — during the graceful drain
+/// when the stop signal lands before the releases.  Every answer has to wait for room in the
+/// queue, so the point at which a call stops counting as pending (ws.rs: the call task's service
+/// clone, dropped after `sink.send`) decides whether the connection may be closed under it.
+fn gen_burst_base(rng: &mut Rng) -> Base {
+	let cap = *rng.pick(&[1u32, 1, 2, 3]);
+	let ncalls = cap as u64 + rng.range(2, 6);
+	let mut b = Base { acts: vec!["open 1 ws".into()], conns: vec![(1, Tr::Ws)], calls: vec![], cap: Some(cap), hot: None };
+	let other = rng.chance(1, 3);
+	if other {
+		let tr = if rng.chance(1, 2) { Tr::Ws } else { Tr::Http };
+		b.conns.push((2, tr));
+		b.acts.push(format!("open 2 {}", if tr == Tr::Ws { "ws" } else { "http" }));
+	}
+	if rng.chance(1, 4) {
+		b.acts.push(format!("sub 1 {}", SUB_BASE + 1));
+		b.acts.push(format!("wsub {}", SUB_BASE + 1));
+	}
+	let mut k = 10u64;
+	for _ in 0..ncalls {
+		k += 1;
+		b.calls.push(k);
+		b.acts.push(format!("send 1 {k}"));
+		if rng.chance(9, 10) {
+			b.acts.push(format!("wstart {k}"));
+		}
+	}
+	if other {
+		b.calls.push(91);
+		b.acts.push("send 2 91".into());
+		b.acts.push("wstart 91".into());
+	}
+	b.hot = Some(b.acts.len());
+	// how they finish: all together at `relall`, all together by back-to-back `rel`s, or in two waves
+	match rng.below(3) {
+		0 => {}
+		1 => {
+			for k in b.calls.clone() {
+				b.acts.push(format!("rel {k}"));
+			}
+		}
+		_ => {
+			let half = b.calls.len() / 2;
+			for k in b.calls[..half].to_vec() {
+				b.acts.push(format!("rel {k}"));
+			}
+			b.acts.push(format!("wfin {}", b.calls[0]));
+			for k in b.calls[half..].to_vec() {
+				b.acts.push(format!("rel {k}"));
+			}
+		}
+	}
+	b
 }
 
 fn gen_base(rng: &mut Rng) -> Base {
 	let nconn = *rng.pick(&[0u64, 1, 1, 2, 2, 2, 3, 3]);
-	let mut b = Base { acts: vec![], conns: vec![], calls: vec![] };
+	let mut b = Base { acts: vec![], conns: vec![], calls: vec![], cap: None, hot: None };
 	for c in 1..=nconn {
 		let tr = if rng.chance(1, 2) { Tr::Ws } else { Tr::Http };
 		b.conns.push((c, tr));
@@ -593,7 +671,8 @@ fn gen_base(rng: &mut Rng) -> Base {
 /// generated histories): after inserting `stop` this still holds because the base respects it.
 fn gen_case(rng: &mut Rng, n: u64, base: &Base, stop_pos: usize, kind: u64) -> Vec<String> {
 	let asm = if rng.chance(1, 3) { Assembly::Tower } else { Assembly::Server };
-	let mut l = vec![format!("case {n} stop cap={} path={}", rng.pick(&[1u32, 2, 16]), asm.name())];
+	let cap = base.cap.unwrap_or_else(|| *rng.pick(&[1u32, 2, 3, 16]));
+	let mut l = vec![format!("case {n} stop cap={cap} path={}", asm.name())];
 	let mut acts: Vec<String> = base.acts.clone();
 	let pos = stop_pos.min(acts.len());
 	let drop_only = kind == 0;
@@ -689,13 +768,16 @@ fn main() {
 		let mut rng = Rng::new(a.seed);
 		let total = a.cases.unwrap_or(if thorough { 15000 } else { 1000 });
 		let mut n = 1000u64;
+		let mut nbase = 0u64;
 		while (cases.len() as u64) < total {
 			// one base history, `stop` at EVERY position of it (thorough) / at a few positions (quick)
-			let base = gen_base(&mut rng);
+			nbase += 1;
+			let base = if nbase % 4 == 0 { gen_burst_base(&mut rng) } else { gen_base(&mut rng) };
 			let positions: Vec<usize> = if thorough || base.acts.len() <= 4 {
 				(0..=base.acts.len()).collect()
 			} else {
 				let mut p: Vec<usize> = (0..4).map(|_| rng.below(base.acts.len() as u64 + 1) as usize).collect();
+				p.extend(base.hot);
 				p.sort();
 				p.dedup();
 				p
